@@ -20,7 +20,7 @@ func C01(r *core.Report) {
 		"R2 section length definition - the CAR reader returns payload length + the width of the length varint, where the width is the number of bytes actually consumed by the varint decode (a byte counter wrapped around the same reader), and Next* forward that value unchanged; " +
 		"R3 value codec agreement for the four typed indexes: the value size given to the builder equals the sum of the widths of the pieces concatenated by Put, which equals the length accepted and the split points used by the reader, and Put guards the ranges of the packed integers; " +
 		"R4 goroutines launched by the same errgroup do not assign the same captured variable (a failed Seal must not be overwritten by a sibling's nil); R5 every index writer created by `index all` receives inserts in the read loop and its Seal/WriteTo error reaches the function's error return; no error of those writers is discarded. " +
-		"R7 in the packages that write index files (blocktimeindex, indexes, bucketteer) every narrowing conversion of a non-constant integer is dominated by a range guard or listed with its invariant (tables/c01_narrow_exempt.json): a block time, offset or count that does not fit makes generation fail instead of being stored truncated. Not decided: hashing/offset arithmetic for concrete CARs, bucket boundaries, the server-side fetch (C03/C10)."
+		"R7 in the packages that write index files (blocktimeindex, indexes, bucketteer) every narrowing conversion of a non-constant integer is dominated by a range guard or listed with its invariant (tables/c01_narrow_exempt.json): a block time, offset or count that does not fit makes generation fail instead of being stored truncated. R8 no guard of the server sends an offset EQUAL to the CAR header size to an error (the first object of every CAR sits exactly there). Not decided: hashing/offset arithmetic for concrete CARs, bucket boundaries, the server-side fetch (C03/C10)."
 	r.Assumptions = []string{"a CIDv1 sha2-256 dag-cbor CID is 36 bytes (table fact)", "binary.ReadUvarint reads through the io.ByteReader it is given"}
 	c01Offsets(r)
 	c01SectionLength(r)
@@ -29,6 +29,8 @@ func C01(r *core.Report) {
 	c01ScratchDirsUnique(r)
 	r.Floor("C01.R6", 3)
 	c01WriterNarrowing(r)
+	c01NoGuardRejectsFirstObject(r)
+	r.Floor("C01.R8", 1)
 	c01SharedWrites(r)
 	c01WriterLifecycle(r)
 	r.Floor("C01.R1", 12)
@@ -756,6 +758,11 @@ func c01WriterNarrowing(r *core.Report) {
 				}
 				cnt := map[string]int{}
 				for _, s := range narrowingSites(p, f) {
+					// byte extraction of a little/big-endian encoder - byte(x >> 16), byte(x & 0xff), byte(x) next to byte(x >> 8) -
+					// drops the other bits on purpose; that the bytes together hold the value is the codec rule's business (R3)
+					if s.DstBits == 8 && isByteExtraction(f, s.Call) {
+						continue
+					}
 					key := fmt.Sprintf("%s#narrow:%s", f.Key, core.KeyStr(f, s.Call))
 					cnt[key]++
 					if cnt[key] > 1 {
@@ -777,4 +784,25 @@ func c01WriterNarrowing(r *core.Report) {
 		}
 	}
 	r.Extra["C01_narrowing_sites"] = n
+}
+
+// isByteExtraction: conv is byte(x >> k) / byte(x & m), or byte(x) in a function that also extracts byte(x >> k).
+func isByteExtraction(f *core.Func, conv *ast.CallExpr) bool {
+	arg := core.Unparen(conv.Args[0])
+	if be, ok := arg.(*ast.BinaryExpr); ok && (be.Op == token.SHR || be.Op == token.AND) {
+		return true
+	}
+	want := core.ExprStr(arg)
+	found := false
+	ast.Inspect(f.Body, func(m ast.Node) bool {
+		if c, ok := m.(*ast.CallExpr); ok && c != conv && len(c.Args) == 1 {
+			if be, ok := core.Unparen(c.Args[0]).(*ast.BinaryExpr); ok && be.Op == token.SHR && core.ExprStr(core.Unparen(be.X)) == want {
+				if tv, ok := f.Pkg.TypesInfo.Types[c.Fun]; ok && tv.IsType() {
+					found = true
+				}
+			}
+		}
+		return !found
+	})
+	return found
 }
